@@ -181,11 +181,19 @@ let flag_err (o : outs) : string option =
 let flag_with (o : outs) (p : string) : string option =
   List.find_opt (fun t -> String.length t >= String.length p && String.sub t 0 (String.length p) = p) o.flags
 
+let crash_of (o : outs) : string option =
+  match flag_with o "CRASH=" with
+  | Some t ->
+      let h = String.sub t 6 (String.length t - 6) in
+      Some (try string_of_chars (chars_of_hex h) with _ -> h)
+  | None -> None
+
 let judge_seq (ins : string list) (outs : string list) : verdict =
   match ins with
   | _ :: tree :: ops ->
       let o = parse_outs outs in
       if List.mem "BADCASE" o.flags then VOk false
+      else if crash_of o <> None then VPropfail ("no_panic", "the code under test took the process down: " ^ (match crash_of o with Some w -> w | None -> ""))
       else if List.mem "PANIC" o.flags then VPropfail ("no_panic", "panic in the code under test")
       else if o.cfgst <> "ok" then VDisagree ("configuration-rejected:" ^ o.cfgst)
       else begin
@@ -261,6 +269,7 @@ let judge_conc (ins : string list) (outs : string list) : verdict =
       if List.mem "BADCASE" o.flags then VOk false
       else if List.mem "CHILDLOST" o.flags then VDisagree "concurrent-child-produced-no-output"
       else if flag_with o "LOCKUP=" <> None then VPropfail ("query_terminates", "the case did not finish within the watchdog period")
+      else if crash_of o <> None then VPropfail ("no_panic", "the code under test took the process down: " ^ (match crash_of o with Some w -> w | None -> ""))
       else if List.mem "PANIC" o.flags then VPropfail ("no_panic", "panic in the code under test")
       else if o.cfgst <> "ok" then VDisagree ("configuration-rejected:" ^ o.cfgst)
       else begin
@@ -375,6 +384,7 @@ let judge_gate (ins : string list) (outs : string list) : verdict =
       if List.mem "BADCASE" o.flags then VOk false
       else if List.mem "CHILDLOST" o.flags then VDisagree "concurrent-child-produced-no-output"
       else if flag_with o "LOCKUP=" <> None then VPropfail ("query_terminates", "the case did not finish within the watchdog period")
+      else if crash_of o <> None then VPropfail ("no_panic", "the code under test took the process down: " ^ (match crash_of o with Some w -> w | None -> ""))
       else if List.mem "PANIC" o.flags then VPropfail ("no_panic", "panic in the code under test")
       else if o.cfgst <> "ok" then VDisagree ("configuration-rejected:" ^ o.cfgst)
       else begin
@@ -425,6 +435,7 @@ let judge_stress (ins : string list) (outs : string list) : verdict =
   | [_; tree; mtok; _load] ->
       let o = parse_outs outs in
       if List.mem "BADCASE" o.flags then VOk false
+      else if crash_of o <> None then VPropfail ("no_panic", "the code under test took the process down: " ^ (match crash_of o with Some w -> w | None -> ""))
       else if List.mem "PANIC" o.flags then VPropfail ("no_panic", "panic in the code under test")
       else if o.cfgst <> "ok" then VDisagree ("configuration-rejected:" ^ o.cfgst)
       else (match flag_with o "LOCKUP=" with
@@ -442,6 +453,40 @@ let judge_stress (ins : string list) (outs : string list) : verdict =
              with Unrepresentable t -> VPropfail ("wellformed_answer", "got=" ^ t)))
   | _ -> VOk false
 
+(* LOADB|LOADM tree traffic TxN : T goroutines x N times the same message, then
+   the number of errors held and the distinct errors *)
+let judge_load (ins : string list) (outs : string list) : verdict =
+  match ins with
+  | [_; tree; mtok; load] ->
+      let o = parse_outs outs in
+      if List.mem "BADCASE" o.flags then VOk false
+      else (match crash_of o with
+          | Some w -> VPropfail ("no_panic", "the code under test took the process down: " ^ w)
+          | None ->
+            if List.mem "PANIC" o.flags then VPropfail ("no_panic", "panic in the code under test")
+            else if flag_with o "LOCKUP=" <> None then VPropfail ("query_terminates", "the case did not finish within the watchdog period")
+            else if o.cfgst <> "ok" then VDisagree ("configuration-rejected:" ^ o.cfgst)
+            else begin
+              let c = parse_tree tree in
+              let (k, m) = mk_msg o mtok 2 in
+              let n = (match String.split_on_char 'x' load with
+                  | [a; b] -> int_of_string a * int_of_string b | _ -> raise (Bad "load")) in
+              let cnt = (match flag_with o "COUNT=" with
+                  | Some t -> int_of_string (String.sub t 6 (String.length t - 6)) | None -> raise (Bad "no COUNT")) in
+              try
+                let a = (try Hashtbl.find o.answers "FQ" with Not_found -> raise (Bad "no FQ")) in
+                let distinct = parse_failures a in
+                let one = load_answer c k m (S O) in
+                if not (c13_same_set_ok one distinct) then
+                  VPropfail ("query_exact", Printf.sprintf "distinct errors after the load: want(any order)=%s got=%s" (pr_failures one) (pr_failures distinct))
+                else if c13_load_ok c k m (nat_of_int n) (nat_of_int cnt) then VOk (n > 1 && one <> [])
+                else VPropfail ("concurrent_none_lost",
+                                Printf.sprintf "%d messages each failing %d verifier(s): want %d errors, got %d"
+                                  n (List.length one) (List.length (load_answer c k m (nat_of_int n))) cnt)
+              with Unrepresentable t -> VPropfail ("wellformed_answer", "got=" ^ t)
+            end)
+  | _ -> VOk false
+
 let judge _name ins outs =
   try
     match ins with
@@ -449,6 +494,7 @@ let judge _name ins outs =
     | ("CONC" | "CONCB") :: _ -> judge_conc ins outs
     | ("GATEM" | "GATEB") :: _ -> judge_gate ins outs
     | ("STRESSM" | "STRESSB") :: _ -> judge_stress ins outs
+    | ("LOADM" | "LOADB") :: _ -> judge_load ins outs
     | _ -> VDisagree "unknown-case-kind"
   with Bad m -> VDisagree ("unparsable-case:" ^ m)
 
